@@ -333,6 +333,93 @@ fn exchange_case(ctx: &Ctx, case: u64, acc: &mut Acc) -> Verdict {
     Ok(())
 }
 
+/// "Down is final until the member is forgotten": one instance, a history of updates interleaved with the
+/// forget-timers the instance itself scheduled (each handed back once, at any later point - also after the
+/// address was taken over by another generation and that one went Down in turn). Sequential model: the join,
+/// plus `forget(id)` removing the record iff it is Down and names exactly `id`. The view is compared after every
+/// step; a record may only disappear in the step that hands back the forget-timer of exactly its identity.
+fn forget_case(ctx: &Ctx, case: u64, acc: &mut Acc) -> Verdict {
+    let mut r = Rng64::derive(ctx.seed, 0xC01F, case);
+    let mut n = fresh(r.next());
+    let mut model = MView::default();
+    let mut timers: Vec<Id> = vec![];
+    let steps = r.range(6, 40);
+    let hi = r.range(1, 3) as u16;
+    let mut forgotten = 0u64;
+    let mut rejoined = 0u64;
+    let mut stale_forgets = 0u64;
+    let mut was_forgotten: std::collections::BTreeSet<Id> = Default::default();
+    for _ in 0..steps {
+        let fire = !timers.is_empty() && r.chance(1, 3);
+        let (rec, removed) = if fire {
+            let id = timers.swap_remove(r.usize(timers.len()));
+            let rec = n.call(Op::Timer(foca::Timer::RemoveDown(id)));
+            ensure!(rec.res.is_ok(), "C01/apply-error", "handle_timer(RemoveDown({id:?})) returned {:?}", rec.res);
+            let hit = model.0.get(&id.addr).is_some_and(|m| m.id == id && m.st == State::Down);
+            if hit {
+                model.0.remove(&id.addr);
+                forgotten += 1;
+                was_forgotten.insert(id);
+            } else {
+                stale_forgets += 1;
+            }
+            (rec, if hit { Some(id) } else { None })
+        } else {
+            // Down-heavy mix so that forgetting and re-learning actually happen
+            let mut u = gen::update(&mut r, 1, hi, 3);
+            if r.chance(1, 3) {
+                u = Member::new(*u.id(), u.incarnation(), State::Down);
+            }
+            let rec = n.call(Op::Apply(vec![u.clone()], r.chance(1, 2)));
+            ensure!(rec.res.is_ok(), "C01/apply-error", "apply_many({u:?}) returned {:?}", rec.res);
+            let before = model.0.get(&u.id().addr).copied();
+            model.apply(MRec::of(&u));
+            if before.is_none() && was_forgotten.contains(u.id()) && u.state() != State::Down {
+                rejoined += 1;
+            }
+            (rec, None)
+        };
+        for (t, _) in rec.scheds() {
+            if let foca::Timer::RemoveDown(id) = t {
+                timers.push(*id);
+            }
+        }
+        for old in &rec.pre.state {
+            match rec.post.rec_for_addr(old.id().addr) {
+                None => ensure!(
+                    removed == Some(*old.id()) && old.state() == State::Down,
+                    "C01/record-vanished",
+                    "record {old:?} disappeared in {} (forget-timer handed back: {:?})",
+                    rec.op.name(),
+                    match &rec.op {
+                        Op::Timer(t) => format!("{t:?}"),
+                        _ => "none".into(),
+                    }
+                ),
+                Some(new) => ensure!(MRec::of(old).le(&MRec::of(new)), "C01/backwards", "record moved backwards: {old:?} -> {new:?} in {}", rec.op.name()),
+            }
+        }
+        let got = view_of(&n);
+        ensure!(
+            got == model.view(),
+            "C01/forget-model-mismatch",
+            "after {} the view is {got:?} but the sequential model (join + forget of exactly the named Down identity) gives {:?}",
+            rec.op.name(),
+            model.view()
+        );
+        ensure!(n.last.num_members == model.num_active(), "C01/num-members", "num_members {} but model has {} active", n.last.num_members, model.num_active());
+    }
+    acc.tally("forget_histories", 1);
+    acc.tally("records_forgotten_by_their_timer", forgotten);
+    acc.tally("forget_timers_without_effect", stale_forgets);
+    acc.tally("identities_back_after_being_forgotten", rejoined);
+    if forgotten > 0 {
+        acc.nontrivial(fp(&("forget", case, forgotten, stale_forgets, rejoined)));
+    }
+    acc.sample(|| json!({"workload": "forget", "steps": steps, "forgotten": forgotten, "forget_timers_without_effect": stale_forgets, "rejoined_after_forget": rejoined}));
+    Ok(())
+}
+
 pub fn check() -> Check {
     Check {
         id: "C01",
@@ -342,12 +429,13 @@ pub fn check() -> Check {
             "Identity::win_addr_conflict is a total order on identities sharing an address (harness identity: higher generation wins)",
             "own-address updates are excluded here (C09/C10 own them)",
         ],
-        required: &["permutations_applied", "exchanges", "exhaustive_tuples_len3"],
+        required: &["permutations_applied", "exchanges", "exhaustive_tuples_len3", "records_forgotten_by_their_timer", "forget_timers_without_effect", "identities_back_after_being_forgotten"],
         workloads: vec![
             Workload { name: "perm", f: perm_case, quick: 12_000, thorough: 1_200_000, flav: Flav::Checked },
             Workload { name: "exh3", f: exh3, quick: 36, thorough: 36, flav: Flav::Checked },
             Workload { name: "exh4", f: exh4, quick: 0, thorough: 36, flav: Flav::Checked },
             Workload { name: "exchange", f: exchange_case, quick: 30_000, thorough: 2_000_000, flav: Flav::Checked },
+            Workload { name: "forget", f: forget_case, quick: 30_000, thorough: 2_000_000, flav: Flav::Checked },
         ],
         exhaustive: false,
     }
